@@ -210,6 +210,24 @@ type c13History struct {
 	Problem              string
 }
 
+// the configured destinations of Cfg 1..3 (each call returns a fresh value: the client may keep what it is given)
+func c13Dest4(cfg int) *net.UDPAddr {
+	if cfg == 3 {
+		return &net.UDPAddr{IP: net.IP{10, 77, 200, 1}, Port: 6767}
+	}
+	return &net.UDPAddr{IP: serverIP(cfg - 1), Port: 67}
+}
+
+func c13Dest6(cfg int) *net.UDPAddr {
+	switch cfg {
+	case 1:
+		return &net.UDPAddr{IP: net.ParseIP("2001:db8::547"), Port: 548}
+	case 2:
+		return &net.UDPAddr{IP: net.ParseIP("ff02::1:2"), Port: 547, Zone: "eth7"} // a scoped address: the zone is part of it
+	}
+	return &net.UDPAddr{IP: net.ParseIP("fe80::1"), Port: 1547, Zone: "3"}
+}
+
 func serverIP(i int) net.IP { return net.IP{10, 77, byte(i), 1} }
 
 func c13Run(t *testing.T, c c13Case) *c13History {
@@ -279,7 +297,7 @@ func c13Run(t *testing.T, c c13Case) *c13History {
 			o6 := []nclient6.ClientOpt{nclient6.WithTimeout(time.Duration(c.T) * tk), nclient6.WithRetry(c.Tries)}
 			switch c.Cfg {
 			case 1, 2, 3:
-				o6 = append(o6, nclient6.WithBroadcastAddr(&net.UDPAddr{IP: net.ParseIP("2001:db8::547"), Port: 547 + c.Cfg}))
+				o6 = append(o6, nclient6.WithBroadcastAddr(c13Dest6(c.Cfg)))
 			case 5:
 				defer quietStderr()()
 				o6 = append(o6, nclient6.WithDebugLogger(), nclient6.WithLogDroppedPackets())
@@ -316,10 +334,8 @@ func c13Run(t *testing.T, c c13Case) *c13History {
 		opts := []nclient4.ClientOpt{nclient4.WithTimeout(time.Duration(c.T) * tk), nclient4.WithRetry(c.Tries)}
 		hw := cliHW
 		switch c.Cfg {
-		case 1, 2:
-			opts = append(opts, nclient4.WithServerAddr(&net.UDPAddr{IP: serverIP(c.Cfg - 1), Port: 67}))
-		case 3:
-			opts = append(opts, nclient4.WithServerAddr(&net.UDPAddr{IP: net.IP{10, 77, 200, 1}, Port: 6767}))
+		case 1, 2, 3:
+			opts = append(opts, nclient4.WithServerAddr(c13Dest4(c.Cfg)))
 		case 4:
 			hw = net.HardwareAddr{2, 0xfe, 0xfe, 0xfe, 0xfe, 1}
 			opts = append(opts, nclient4.WithHWAddr(cliHW))
@@ -559,6 +575,13 @@ func c13Schedule(tag string, ws []c13Write, T, tries int) *obs.Fail {
 }
 
 func c13Check4(c c13Case, h *c13History) *obs.Fail {
+	if c.Cfg >= 1 && c.Cfg <= 3 {
+		for i, w := range h.Writes {
+			if want := c13Dest4(c.Cfg).String(); w.Type == 1 && w.To != want {
+				return obs.Failf("C13/v4/destination", fmt.Sprintf("DISCOVER %d to the configured server address %s", i, want), "%s", w.To)
+			}
+		}
+	}
 	T := c.T
 	sched := T * ((1 << uint(c.Tries)) - 1)
 	// phase 1: DISCOVER
@@ -734,6 +757,14 @@ func c13Check4(c c13Case, h *c13History) *obs.Fail {
 }
 
 func c13Check6(c c13Case, h *c13History) *obs.Fail {
+	if c.Cfg >= 1 && c.Cfg <= 3 {
+		// every message of the exchange goes to the configured address, whole (address, port, zone)
+		for i, w := range h.Writes {
+			if want := c13Dest6(c.Cfg).String(); w.To != want {
+				return obs.Failf("C13/v6/destination", fmt.Sprintf("transmission %d to the configured address %s", i, want), "%s", w.To)
+			}
+		}
+	}
 	sched := c.T * ((1 << uint(c.Tries)) - 1)
 	var sol, reqs []c13Write
 	for _, w := range h.Writes {
